@@ -1520,6 +1520,7 @@ def fam_C13(rng, tier):
     causes = []
     for r in m.DISCONNECT_REASONS:
         causes.append(('sdisc', r))
+    causes += [('sdisc-reason', r) for r in ([0, 0x04, 0x81, 0x8b, 0x8e] if tier == 'quick' else m.DISCONNECT_REASONS)]
     causes += [('sdisc-empty', 0), ('udisc', 0), ('udisc', 0x04), ('udisc-cancelled', 0), ('udisc-batch', 0), ('udisc-batch', 1),
                ('udisc-batch', 2), ('udisc-batch', 3), ('batch-udisc', 0), ('eof', 0), ('err', 0), ('handles', 0),
                ('garbage', 0), ('badlen', 0), ('werr', 0)]
@@ -1534,6 +1535,8 @@ def fam_C13(rng, tier):
             st(s)
             if cause == 'sdisc':
                 s.feed(m.disconnect(r, rand_props(rng, [31, 28], p=0.5)))
+            elif cause == 'sdisc-reason':
+                s.feed(m.disconnect(r, None, 'reason'))          # e0 01 rc: reason code without a property length
             elif cause == 'sdisc-empty':
                 s.feed(m.disconnect(0, None, 'empty'))
             elif cause == 'udisc':
